@@ -26,6 +26,7 @@ TECHNIQUE = "static analysis: ordered effect script of the loop tail with guards
 def run(ctx):
     _run_main6(ctx)
     _round6(ctx)
+    _round7(ctx)
 
 
 def _run_main6(ctx):
@@ -158,3 +159,11 @@ def _round6(ctx):
         r.eq('channel-receiver:registration-sites', reg, [('io_loop::Inner::allocate_channel', 'register', 'slot.rx'), ('io_loop::Inner::reregister_nonzero_channels', 'reregister', 'slot.rx')], None,
              why='re-arming a channel anywhere else lets its publisher keep filling outbuf during a stall')
         A.include(ctx, r, 'c01', 'R01.12')
+
+
+def _round7(ctx):
+    """Found by seeding round 7 (minimal one-line mutations)."""
+    from rules import arms as A
+    with ctx.rule('R18.8', "the marks and the bound are the caller's: ConnectionTuning's builder setters put each argument into the field of its name; a publisher facing a full queue blocks, it is not dropped (shared with C09)", floor=10) as r:
+        A.setters_and_ctors(ctx, r, 'connection::ConnectionTuning')
+        A.include(ctx, r, 'c09', 'R09.3', pick=('send',))
